@@ -289,6 +289,8 @@ ExecStmt(S, n, rest) ==
             [S EXCEPT !.ctl = LvItems(s.lhs) \o <<[k |-> "doincdec", n |-> n]>> \o rest]
       [] s.k = "expr" ->
             [S EXCEPT !.ctl = <<ExprI(s.e), [k |-> "dropvals", n |-> s.nres]>> \o rest]
+      [] s.k = "yield" ->       \* a top-level expression statement: its value is what Eval returns if it is the last one
+            [S EXCEPT !.ctl = <<ExprI(s.e), [k |-> "doyield"]>> \o rest]
       [] s.k = "print" ->
             [S EXCEPT !.ctl = ExprItems(s.args) \o <<[k |-> "doprint", nargs |-> Len(s.args), ln |-> s.ln]>> \o rest]
       [] s.k = "block" -> Block(S, s.body, rest)
@@ -505,6 +507,8 @@ Steps(S) ==
                    ELSE Store(S2, s.lhs, ops, IntV(cur.ty, Bin(cur.ty, IF s.d > 0 THEN "+" ELSE "-", cur.v, 1)), s.line))
       [] it.k = "doprint" ->
             Ret([S EXCEPT !.out = Append(@, [ln |-> it.ln, vs |-> TopN(S.vals, it.nargs)]), !.vals = DropN(@, it.nargs), !.ctl = rest])
+      [] it.k = "doyield" ->
+            Ret([S EXCEPT !.last = <<v1>>, !.vals = DropN(@, 1), !.ctl = rest])
       [] it.k = "dopanic" ->
             Ret(PanicState([S EXCEPT !.vals = DropN(@, 1), !.ctl = rest], "panic", it.line))
       \* ---- control flow
@@ -563,7 +567,7 @@ Steps(S) ==
 
 \* ---------------------------------------------------------------- the specification
 InitState == [ctl |-> <<[k |-> "start"]>>, vals |-> <<>>, scopes |-> <<EmptyScope>>, glob |-> [x \in {} |-> NilV],
-              heap |-> <<>>, out |-> <<>>, status |-> [s |-> "run"], ch |-> <<>>, steps |-> 0]
+              heap |-> <<>>, out |-> <<>>, status |-> [s |-> "run"], ch |-> <<>>, steps |-> 0, last |-> <<>>]
 MInit == p \in 1..Len(Progs) /\ st = InitState
 \* steps counts machine steps (model-checking configurations bound it so that a program that does not
 \* terminate cannot keep TLC busy for ever)
@@ -592,6 +596,10 @@ Behaviour == [prog |-> Progs[p].id, ch |-> st.ch, out |-> [i \in DOMAIN st.out |
               kind |-> IF st.status.s = "panic" THEN st.status.kind ELSE "",
               line |-> IF st.status.s = "panic" THEN st.status.line ELSE 0,
               fn |-> IF st.status.s = "panic" THEN st.status.fn ELSE "",
-              chain |-> IF st.status.s = "panic" THEN st.status.chain ELSE <<>>]
+              chain |-> IF st.status.s = "panic" THEN st.status.chain ELSE <<>>,
+              \* package-level variables at the end (name, value) and the value of the last yielded expression
+              glob |-> LET names == DOMAIN st.glob IN
+                       {[name |-> n, val |-> OutVal(st.glob[n])] : n \in names},
+              last |-> [i \in DOMAIN st.last |-> OutVal(st.last[i])]]
 Emit == Terminal => PrintT(<<"BEH", ToJson(Behaviour)>>)
 =============================================================================
